@@ -182,7 +182,46 @@ pub fn check_seed<V: Fv>(seed: [u8; 32], nmsgs: usize, vseed: u64, rep: &mut Rep
     }
 }
 
+/// VOLUME: the same valid secret-key bytes decoded many times on all cores; every result must
+/// equal the first (crate's ==) and re-encode identically. A decoder whose result depends on
+/// randomness of its own (blinding, a randomised algorithm with a rare failure) only shows in
+/// numbers like these.
+fn decode_volume<V: Fv>(ctx: &Ctx, total: usize, rep: &mut Report) {
+    let (keys, _) = crate::pool::keys::<V>(ctx.seed, "c05-volume", 1);
+    let k = match keys.first() {
+        Some(k) => k,
+        None => return,
+    };
+    let bytes = V::sk_to_bytes(&k.sk);
+    let chunks = 64usize;
+    let r = par_for(chunks, ncpu(), |ci, rep| {
+        for it in 0..total / chunks {
+            rep.evaluations += 1;
+            match monitored(|| V::sk_from_bytes(&bytes)) {
+                Ok(Ok(sk2)) => {
+                    if !(sk2 == k.sk) || (it % 64 == 0 && V::sk_to_bytes(&sk2) != bytes) {
+                        rep.violation("sk:decode-not-a-function-of-the-bytes", format!("{}: decoding the same valid secret-key bytes again (decode {} of chunk {}) gave a key that differs from the original", V::NAME, it, ci), json!({"variant": V::NAME, "seed": hex(&k.seed)}));
+                        break;
+                    }
+                }
+                Ok(Err(e)) => {
+                    rep.violation("key:own-encoding-rejected", format!("{}: from_bytes(to_bytes(key)) failed on repetition {}: {}", V::NAME, it, e), json!({"variant": V::NAME, "seed": hex(&k.seed)}));
+                    break;
+                }
+                Err(p) => {
+                    rep.violation(&format!("panic:from_bytes@{}", short_loc(&p.location)), p.message.clone(), json!({"variant": V::NAME, "seed": hex(&k.seed)}));
+                    break;
+                }
+            }
+        }
+        rep.count("repeated_decodes_of_one_key", (total / chunks) as u64);
+    });
+    rep.merge(r);
+}
+
 pub fn roundtrip(ctx: &Ctx, rep: &mut Report) {
+    decode_volume::<F512>(ctx, ctx.sz(160_000, 3_000_000), rep);
+    decode_volume::<F1024>(ctx, ctx.sz(48_000, 1_200_000), rep);
     if !crate::pool::keygen_responds::<F512>() {
         rep.inconclusive("key generation did not return within 180 s (canary); reported as inconclusive, never as a violation".into());
         return;
